@@ -44,7 +44,7 @@ ASSUMPTIONS = [
     "the docstring spelling `start = \"A\"` is not exercised: only the working `\"<input>_0\"` form used by the shipped algorithms",
 ]
 REQUIRED_CLASSES = {"all": ["domain=program", "domain=shipped", "has-product", "has-marker", "has-recurrence", "has-scope-call",
-                            "nested-call-under-condition", "has-hermitian-product", "has-selection-wrappers", "n_inf=2", "deleted-term"]}
+                            "nested-call-under-condition", "has-hermitian-product", "has-selection-wrappers", "n_inf=2", "deleted-term", "inputs=data", "inputs=evaluated"]}
 
 
 # --------------------------------------------------------------------------- program strategy
@@ -189,6 +189,7 @@ def _program_case(draw, tier):
         "domain": "program", "program": prog, "nb": nb, "n_inf": n_inf, "sizes": sizes, "salt": draw(st.integers(0, 10**6)),
         "flagA": draw(st.booleans()), "flags": [draw(st.booleans()) for _ in range(nb)],
         "wrappers": draw(st.integers(0, 3)) == 0, "schedule": sched,
+        "prefetch": draw(st.sampled_from(["none", "none", "evaluated", "data"])),
     }
 
 
@@ -272,7 +273,7 @@ def _check_program(case, out):
 
     prog = case["program"]
     nb, n_inf = case["nb"], case["n_inf"]
-    out.labels += sorted(program_features(prog)) + [f"n_inf={n_inf}", f"grid={nb}"]
+    out.labels += sorted(program_features(prog)) + [f"n_inf={n_inf}", f"grid={nb}", "inputs=" + case.get("prefetch", "none")]
 
     def to_ref(v):
         return dsl.ZERO if v is None else v
@@ -282,7 +283,21 @@ def _check_program(case, out):
             v = input_value(case, tag, tuple(int(q) for q in index))
             return zero if v is None else v
 
-        return BlockSeries(eval=ev, shape=(nb, nb), n_infinite=n_inf, name=["A", "B"][tag])
+        data = None
+        if case.get("prefetch") == "data":
+            # data-backed input: the zeroth order is stored in the series from the start
+            data = {}
+            for i in range(nb):
+                for j in range(nb):
+                    v = input_value(case, tag, (i, j) + (0,) * n_inf)
+                    data[(i, j) + (0,) * n_inf] = zero if v is None else v
+        series_in = BlockSeries(eval=ev, data=data, shape=(nb, nb), n_infinite=n_inf, name=["A", "B"][tag])
+        if case.get("prefetch") == "evaluated":
+            # the caller has already looked at the unperturbed part before compiling the algorithm
+            for i in range(nb):
+                for j in range(nb):
+                    series_in[(i, j) + (0,) * n_inf]
+        return series_in
 
     keep = [np.array([[(_h(case["salt"], 77, b, x, y) % 3 != 0) or x == y for y in range(case["sizes"][b])] for x in range(case["sizes"][b])], dtype=float) for b in range(nb)]
 
